@@ -173,6 +173,13 @@ theorem step_callback {fuel : Nat} (ih : Specs A B fuel) :
       mcheck; exact fin _ () hG h
     · -- addr
       mres; exact fin _ () hG h
+    · -- dup: a system call on the descriptor of `c`; no model state changes
+      mguard
+      mnote
+      mpop
+      msplit
+      mguard
+      mcheck; exact fin _ () hG h
     · mdead
 
 end Gnet.Reactor
